@@ -79,8 +79,10 @@ class Jacobian(_Common):
         options = dict(method=method, rel_step=self.step, args=args,
                        kwargs=kwds, bounds=self.bounds, sparsity=self.sparsity)
 
-        grad = approx_derivative(self.fun, x, **options)
-
+        f_x = np.asarray(self.fun(x, *args, **kwds))
+        grad = approx_derivative(self.fun, x, f0=np.atleast_1d(f_x), **options)
+        if f_x.ndim == 1:  # scipy ravels the (1, n) jacobian of a length-1 vector output
+            grad = np.atleast_2d(grad)
         return grad
 
 
